@@ -156,10 +156,11 @@ class PathCond(Domain):
     """state = (path formula, env of boolean locals as a tuple of pairs, extra facts frozenset).
     Meant to be wrapped in flow.Disjunctive (one state per path)."""
 
-    def __init__(self, subst: dict[str, str] | None = None, gen=None, upd=None):
+    def __init__(self, subst: dict[str, str] | None = None, gen=None, upd=None, decide=None):
         self.subst = subst or {}
         self.gen = gen                      # stmt -> iterable of opaque facts established
         self.upd = upd                      # (stmt, facts) -> facts  (facts that can also be retracted)
+        self.decide = decide                # (test, facts) -> True / False / None: tests decided by the facts
 
     @staticmethod
     def initial():
@@ -241,6 +242,10 @@ class PathCond(Domain):
 
     def assume(self, test, s, truth):
         pc, env, facts = s
+        if self.decide is not None:
+            known = self.decide(test, facts)
+            if known is not None and known != truth:
+                return None                 # the branch cannot be taken with the values known on this path
         f = parse(test, {k: v for k, v in env if not k.startswith('@')}, self._subst(dict(env)))
         if not truth:
             f = f_not(f)
@@ -391,6 +396,42 @@ def sym_values(max_len: int = 200):
 
     def resolve(state, e: ast.AST) -> ast.AST:
         return _sub(e, _vals(state[2]))
+
+    def decide(test: ast.AST, facts):
+        """a comparison of integer / string / None constants once the known locals are substituted"""
+        if not isinstance(test, ast.Compare) or len(test.ops) != 1:
+            return None
+        vals = _vals(facts)
+        if not any(isinstance(n, ast.Name) and n.id in vals for n in ast.walk(test)):
+            return None
+        e = _sub(test, vals)
+        sides = [e.left, e.comparators[0]]
+        if not all(isinstance(x, ast.Constant) and isinstance(x.value, (int, str, type(None)))
+                   and not isinstance(x.value, bool) for x in sides):
+            return None
+        a, b = sides[0].value, sides[1].value
+        op = e.ops[0]
+        try:
+            if isinstance(op, ast.Eq):
+                return a == b
+            if isinstance(op, ast.NotEq):
+                return a != b
+            if isinstance(op, ast.Is):
+                return a is b
+            if isinstance(op, ast.IsNot):
+                return a is not b
+            if isinstance(op, ast.Lt):
+                return a < b
+            if isinstance(op, ast.LtE):
+                return a <= b
+            if isinstance(op, ast.Gt):
+                return a > b
+            if isinstance(op, ast.GtE):
+                return a >= b
+        except TypeError:
+            return None
+        return None
+    upd.decide = decide
     return upd, resolve
 
 
